@@ -80,10 +80,26 @@ def getKey? : JV → String → Option JV
   | .obj kvs, k => (kvs.find? (·.1 == k)).map (·.2)
   | _, _ => none
 
-/-- Follow a dotted path of object keys. -/
+mutual
+  /-- One member step of bmeg/jsonpath (`$.a.b`): a member of an object; on a LIST the name is
+      mapped over the elements — objects having the member contribute its value, lists contribute
+      the list of what their elements contribute (possibly empty), everything else (scalars, objects
+      without the member) is skipped; on a scalar, or an object without the member, the step fails. -/
+  def member (k : String) : JV → Option JV
+    | .obj kvs => (kvs.find? (·.1 == k)).map (·.2)
+    | .arr xs => some (.arr (memberList k xs))
+    | _ => none
+  def memberList (k : String) : List JV → List JV
+    | [] => []
+    | x :: xs => match member k x with
+      | some w => w :: memberList k xs
+      | none => memberList k xs
+end
+
+/-- Follow a dotted path (object members; mapped over lists, see `member`). -/
 def getPath? (v : JV) : List String → Option JV
   | [] => some v
-  | k :: ks => match v.getKey? k with
+  | k :: ks => match v.member k with
     | some w => w.getPath? ks
     | none => none
 
